@@ -8,8 +8,8 @@ Import ListNotations.
 Theorem C04_no_pending_while_servable_positional :
   forall k c td ops, k <> StoreP.KFilter ->
     let s := StoreP.run (StoreP.init k c td) ops in
-    (StoreP.putq s <> [] -> StoreP.admit_put s = false) /\
-    (StoreP.getq s <> [] -> StoreP.admit_get s = false).
+    (StoreP.putq s <> [] -> StoreP.allow_put s = false) /\
+    (StoreP.getq s <> [] -> StoreP.allow_get s = false).
 Proof. exact StorePOrder.nolost_reachable. Qed.
 Print Assumptions C04_no_pending_while_servable_positional.
 
@@ -48,8 +48,8 @@ Proof. vm_compute. auto. Qed.
 Theorem C04_no_pending_while_servable_bound :
   forall k m c ops, StoreB.is_belt k = false -> NoDup (StoreBInv.put_ids ops) ->
     let s := StoreB.run (StoreB.init k m c) ops in
-    (StoreB.putq s <> [] -> StoreB.admit_put s = false) /\
-    (StoreB.getq s <> [] -> StoreB.admit_get s = false).
+    (StoreB.putq s <> [] -> StoreB.allow_put s = false) /\
+    (StoreB.getq s <> [] -> StoreB.allow_get s = false).
 Proof. exact StoreBProps.nolost_reachable. Qed.
 Print Assumptions C04_no_pending_while_servable_bound.
 
